@@ -24,7 +24,7 @@ PROBES = ["dual_built_before_importer", "dual_built_after_importer", "shared_lib
           "respelled_argument", "failing_lib_imported", "directory_and_files_mixed", "symlinked_template_pair"]
 TIERS = {
     "quick": {"runs": 230, "wall_cap": 210},
-    "thorough": {"runs": 5000, "wall_cap": 3300, "reexecute": 60},
+    "thorough": {"runs": 3500, "wall_cap": 3300, "reexecute": 60},
 }
 FAILS = ["syntax", "type", "runtime", "runtime_opaque", "convert", "missing_import", "post_out", "lazy_missing_import", "lazy_broken_import",
          "strict_only_field", "strict_only_env", "convert_late_xml", "convert_late_yamlmulti", "div_zero", "mod_zero", "format_too_few_args"]
